@@ -11,7 +11,7 @@
 
 use sophia_api::ns::xsd;
 use sophia_api::serializer::{Stringifier, TripleSerializer};
-use sophia_api::source::{StreamResult, TripleSource};
+use sophia_api::source::{SinkError, StreamResult, TripleSource};
 use sophia_api::term::{Term, TermKind};
 use sophia_api::triple::Triple;
 use std::io;
@@ -78,8 +78,10 @@ where
                 let w = &mut self.write;
                 write_triple(w, t)?;
                 w.write_all(b".\n")
-            })
-            .map(|()| self)
+            })?;
+        // the writer is owned by the serializer: nobody else can flush it
+        self.write.flush().map_err(SinkError)?;
+        Ok(self)
     }
 }
 
